@@ -128,3 +128,70 @@ func Range[T any](ch <-chan T) iter.Seq[T] {
 		}
 	}
 }
+
+// TrySend replaces `select { case ch <- v: ...; default: ... }`: a scheduling point that is always
+// enabled, after which the send happens if and only if the buffer has room at that moment.
+//
+//go:norace
+func TrySend[T any](ch chan<- T, v T) bool {
+	e := cur
+	if e == nil {
+		select {
+		case ch <- v:
+			return true
+		default:
+			return false
+		}
+	}
+	if e.aborting {
+		return false
+	}
+	if ch == nil {
+		Point(KYield, nil)
+		return false
+	}
+	o := chanObj(*(*unsafe.Pointer)(unsafe.Pointer(&ch)), len(ch), cap(ch))
+	Point(KYield, o)
+	if o.Closed {
+		panic("send on closed channel")
+	}
+	if o.Count >= o.Cap {
+		return false
+	}
+	o.Count++
+	ch <- v
+	return true
+}
+
+// TryRecv replaces `select { case v, ok := <-ch: ...; default: ... }`; sel reports whether the
+// receive case was taken (an element was buffered, or the channel is closed).
+//
+//go:norace
+func TryRecv[T any](ch <-chan T) (v T, ok bool, sel bool) {
+	e := cur
+	if e == nil {
+		select {
+		case v, ok = <-ch:
+			return v, ok, true
+		default:
+			return v, false, false
+		}
+	}
+	if e.aborting {
+		return v, false, false
+	}
+	if ch == nil {
+		Point(KYield, nil)
+		return v, false, false
+	}
+	o := chanObj(*(*unsafe.Pointer)(unsafe.Pointer(&ch)), len(ch), cap(ch))
+	Point(KYield, o)
+	if o.Count == 0 && !o.Closed {
+		return v, false, false
+	}
+	if o.Count > 0 {
+		o.Count--
+	}
+	v, ok = <-ch
+	return v, ok, true
+}
